@@ -31,6 +31,8 @@ fn run_w<const B: usize, const L: usize, const NB: usize>(scn: &Obj) -> Value {
             ev.rec("nt_cdive", || <U<B, L> as nt::CheckedEuclid>::checked_div_euclid(&a, &b));
             ev.rec("nt_creme", || <U<B, L> as nt::CheckedEuclid>::checked_rem_euclid(&a, &b));
             ev.rec("nt_dive", || <U<B, L> as nt::Euclid>::div_euclid(&a, &b));
+            ev.rec("nt_divreme", || <U<B, L> as nt::Euclid>::div_rem_euclid(&a, &b));
+            ev.rec("nt_cdivreme", || <U<B, L> as nt::CheckedEuclid>::checked_div_rem_euclid(&a, &b));
             ev.rec("nt_reme", || <U<B, L> as nt::Euclid>::rem_euclid(&a, &b));
             ev.rec("nt_sat_add", || <U<B, L> as nt::Saturating>::saturating_add(a, b));
             ev.rec("nt_sat_sub", || <U<B, L> as nt::Saturating>::saturating_sub(a, b));
@@ -58,6 +60,12 @@ fn run_w<const B: usize, const L: usize, const NB: usize>(scn: &Obj) -> Value {
             ev.rec("ni_div_ceil", || Integer::div_ceil(&a, &b));
             ev.rec("ni_div_mod_floor", || Integer::div_mod_floor(&a, &b));
             ev.rec("ni_egcd", || { let e = Integer::extended_gcd(&a, &b); (e.gcd, e.x, e.y) });
+            // methods the trait PROVIDES from the required ones (an override in the crate must agree with them)
+            ev.rec("ni_gcd_lcm", || Integer::gcd_lcm(&a, &b));
+            ev.rec("ni_next_multiple", || Integer::next_multiple_of(&a, &b));
+            ev.rec("ni_prev_multiple", || Integer::prev_multiple_of(&a, &b));
+            #[allow(deprecated)]
+            ev.rec("ni_divides", || Integer::divides(&a, &b));
             ev.rec("in_divrem", || a.div_rem(b));
             ev.rec("in_gcd", || a.gcd(b));
             ev.rec("in_lcm", || a.lcm(b));
@@ -114,6 +122,16 @@ fn run_w<const B: usize, const L: usize, const NB: usize>(scn: &Obj) -> Value {
             ev.rec("nt_to_u128", || nt::ToPrimitive::to_u128(&a).map(Bn));
             ev.rec("nt_to_u8", || nt::ToPrimitive::to_u8(&a).map(|v| Bn(v as u128)));
             ev.rec("nt_to_i8", || nt::ToPrimitive::to_i8(&a).map(|v| Bn(v as u128)));
+            // the provided ToPrimitive / Zero / One methods (derived by the trait from the required ones; an override must agree)
+            ev.rec("nt_to_i16", || nt::ToPrimitive::to_i16(&a).map(|v| Bn(v as u128)));
+            ev.rec("nt_to_u16", || nt::ToPrimitive::to_u16(&a).map(|v| Bn(v as u128)));
+            ev.rec("nt_to_i32", || nt::ToPrimitive::to_i32(&a).map(|v| Bn(v as u128)));
+            ev.rec("nt_to_u32", || nt::ToPrimitive::to_u32(&a).map(|v| Bn(v as u128)));
+            ev.rec("nt_to_isize", || nt::ToPrimitive::to_isize(&a).map(|v| Bn(v as u128)));
+            ev.rec("nt_to_usize", || nt::ToPrimitive::to_usize(&a).map(|v| Bn(v as u128)));
+            ev.rec("nt_is_one", || <U<B, L> as nt::One>::is_one(&a));
+            ev.rec("nt_set_zero", || { let mut x = a; <U<B, L> as nt::Zero>::set_zero(&mut x); x });
+            ev.rec("nt_set_one", || { let mut x = a; <U<B, L> as nt::One>::set_one(&mut x); x });
             ev.rec("nt_to_le", || Raw(<U<B, L> as nt::ToBytes>::to_le_bytes(&a)));
             ev.rec("nt_to_be", || Raw(<U<B, L> as nt::ToBytes>::to_be_bytes(&a)));
             ev.rec("nt_from_le", || <U<B, L> as nt::FromBytes>::from_le_bytes(&a.to_le_bytes_vec()));
